@@ -100,3 +100,63 @@ Theorem C13_quiet_means_caught_up :
       qi' = [] /\ R st' (after_batches batches l) v.
 Proof. intros A B St on_diff on_param R; exact (poll_b_quiet_means_caught_up on_diff on_param R). Qed.
 Print Assumptions C13_quiet_means_caught_up.
+
+(* ---------------- across the three crates, batched flavour (FullStackB.v) ----------------
+   A dynamic adapter on `vector.subscribe().batched()` with a Subscriber of an Observable<usize> as
+   its limit stream, in ANY history of calls on the vector (mutators, multi-operation transactions
+   committed / rolled back / dropped, other subscribers, drop; any capacity) and on the observable:
+   a batch handed out is never empty; it stems either from ONE limit change (the vector side is
+   untouched by that poll) or from source items, and then the replica the consumer's view now
+   stands for IS the vector's contents as of that poll - a state the vector has between top-level
+   operations, never one inside a transaction. *)
+From EB Require Import AdapterCore OVec OVecRun Obs FullStack FullStackFacts FullStackB FullStackBFacts.
+
+Theorem C13_full_stack_batch_lands_on_a_vector_state :
+  forall (A St : Type) (veq heq : nat -> nat -> bool) (vdefault : nat)
+         (on_diff : St -> diff A -> outcome (St * list (diff A)))
+         (on_param : St -> nat -> St * option (list (diff A)))
+         (init : nat -> list A -> St * list A)
+         (R : St -> list A -> list A -> Prop) (param : St -> nat),
+    (forall n l, R (fst (init n l)) l (snd (init n l)) /\ param (fst (init n l)) = n) ->
+    step_ok on_diff R ->
+    (forall st d st' outs, on_diff st d = Ok (st', outs) -> param st' = param st) ->
+    param_ok on_param R ->
+    (forall st n, param (fst (on_param st n)) = n) ->
+    (forall st n, snd (on_param st n) <> Some []) ->
+    forall capacity okd limit0 evs s fuel s' ds,
+      frun_b veq heq vdefault on_diff on_param init (fsb_init capacity okd limit0) evs = ROk s ->
+      fstep_b veq heq vdefault on_diff on_param init s (FPoll fuel) = ROk (s', FBAnswer (Ready (Some ds))) ->
+      ds <> [] /\
+      exists a gh, fb_ad s' = Some a /\ nth_error (g_gh (fb_g s')) (b_k a) = Some gh /\
+        R (b_st a) (gh_replica gh) (b_view a) /\
+        (fb_g s' = fb_g s \/ gh_replica gh = values (g_o (fb_g s'))).
+Proof. exact (@fullb_batch_lands_on_a_vector_state). Qed.
+Print Assumptions C13_full_stack_batch_lands_on_a_vector_state.
+
+Theorem C13_full_stack_batched_invariant :
+  forall (A St : Type) (veq heq : nat -> nat -> bool) (vdefault : nat)
+         (on_diff : St -> diff A -> outcome (St * list (diff A)))
+         (on_param : St -> nat -> St * option (list (diff A)))
+         (init : nat -> list A -> St * list A)
+         (R : St -> list A -> list A -> Prop) (param : St -> nat),
+    (forall n l, R (fst (init n l)) l (snd (init n l)) /\ param (fst (init n l)) = n) ->
+    step_ok on_diff R ->
+    (forall st d st' outs, on_diff st d = Ok (st', outs) -> param st' = param st) ->
+    param_ok on_param R ->
+    (forall st n, param (fst (on_param st n)) = n) ->
+    (forall st n, snd (on_param st n) <> Some []) ->
+    forall capacity okd limit0 evs,
+      frun_b veq heq vdefault on_diff on_param init (fsb_init capacity okd limit0) evs <> RPanic /\
+      forall s, frun_b veq heq vdefault on_diff on_param init (fsb_init capacity okd limit0) evs = ROk s ->
+        fb_ok s = true /\
+        match fb_ad s with
+        | None => True
+        | Some a => exists gh, nth_error (g_gh (fb_g s)) (b_k a) = Some gh /\ R (b_st a) (gh_replica gh) (b_view a)
+        end.
+Proof.
+  intros A St veq heq vdefault on_diff on_param init R param H1 H2 H3 H4 H5 H6 capacity okd limit0 evs.
+  split.
+  - exact (fullb_never_panics veq heq vdefault on_diff on_param init R param H1 H2 H3 H4 H5 H6 capacity okd limit0 evs).
+  - exact (fullb_invariant veq heq vdefault on_diff on_param init R param H1 H2 H3 H4 H5 H6 capacity okd limit0 evs).
+Qed.
+Print Assumptions C13_full_stack_batched_invariant.
